@@ -389,6 +389,201 @@ Qed.
 
 End QuietServer.
 
+(* ---------- one message and nothing after it: the 411 peek needs octets BEHIND a completed message ---------- *)
+Section Single.
+Variable C : callees.
+Variable k : kind.
+Notation L := reference.
+Notation E := eager_reference.
+
+Lemma obc_last i : on_body_complete real C k i [] = on_body_complete E C k i [].
+Proof. unfold on_body_complete. cbn [peek411 real eager_reference nonempty_b andb]. destruct k; reflexivity. Qed.
+
+(* the eager machine blocks: the machine as implemented blocks in the same state (no message was completed, the peek was not reached) *)
+Lemma after_headers_blocked i b s1 : after_headers E C k i b = TBlocked s1 -> after_headers real C k i b = TBlocked s1.
+Proof.
+  rewrite (after_headers_eq E C k i b), (after_headers_eq real C k i b).
+  destruct (parse_body C i b) as [i' b'|i' b'|e]; [intros H; exact H | | discriminate].
+  destruct (on_body_complete E C k i' b'); discriminate.
+Qed.
+
+Lemma after_headers_last i b s' m : after_headers E C k i b = TMsg s' m -> buf s' = [] -> after_headers real C k i b = TMsg s' m.
+Proof.
+  rewrite (after_headers_eq E C k i b), (after_headers_eq real C k i b).
+  destruct (parse_body C i b) as [i' b'|i' b'|e]; try discriminate.
+  destruct (on_body_complete E C k i' b') as [m0|e0] eqn:O; [|discriminate].
+  intros H Hb. injection H as <- <-. cbn [buf] in Hb. subst b'. rewrite obc_last, O. reflexivity.
+Qed.
+
+Lemma after_startline_blocked i b s1 : after_startline E C k i b = TBlocked s1 -> after_startline real C k i b = TBlocked s1.
+Proof.
+  rewrite (after_startline_eq E C k i b), (after_startline_eq real C k i b).
+  destruct (i_phase i); [|apply after_headers_blocked].
+  change (parse_headers real (i_le i) (i_hdrs i) b) with (parse_headers E (i_le i) (i_hdrs i) b).
+  destruct (parse_headers E (i_le i) (i_hdrs i) b) as [h b'|h b'|e]; [intros H; exact H | | discriminate].
+  destruct (on_headers_complete C k (set_phase (set_hdrs i h) PBody)); [apply after_headers_blocked | discriminate].
+Qed.
+
+Lemma after_startline_last i b s' m : after_startline E C k i b = TMsg s' m -> buf s' = [] -> after_startline real C k i b = TMsg s' m.
+Proof.
+  rewrite (after_startline_eq E C k i b), (after_startline_eq real C k i b).
+  destruct (i_phase i); [|apply after_headers_last].
+  change (parse_headers real (i_le i) (i_hdrs i) b) with (parse_headers E (i_le i) (i_hdrs i) b).
+  destruct (parse_headers E (i_le i) (i_hdrs i) b) as [h b'|h b'|e]; try discriminate.
+  destruct (on_headers_complete C k (set_phase (set_hdrs i h) PBody)); [apply after_headers_last | discriminate].
+Qed.
+
+Lemma startline_same s : lf_select s = false -> cur s = None -> parse_startline real C (buf s) = parse_startline E C (buf s).
+Proof.
+  unfold lf_select. intros H1 Cu. rewrite Cu in H1. unfold parse_startline. cbn [allow_lf real eager_reference andb].
+  destruct (contains CRLF (buf s)); [reflexivity|]. cbn [negb andb] in H1. rewrite H1. reflexivity.
+Qed.
+
+Lemma turn_blocked_same s s1 : lf_select s = false -> turn_of E C k s = TBlocked s1 -> turn_of real C k s = TBlocked s1.
+Proof.
+  intros Hlf. rewrite (turn_of_eq E C k s), (turn_of_eq real C k s).
+  destruct (cur s) as [i|] eqn:Cu; [apply after_startline_blocked|].
+  rewrite (startline_same s Hlf Cu).
+  destruct (parse_startline E C (buf s)) as [a x'|[[line le] info] rest|e]; [intros H; exact H | apply after_startline_blocked | discriminate].
+Qed.
+
+Lemma turn_last_same s s' m : lf_select s = false -> turn_of E C k s = TMsg s' m -> buf s' = [] -> turn_of real C k s = TMsg s' m.
+Proof.
+  intros Hlf. rewrite (turn_of_eq E C k s), (turn_of_eq real C k s).
+  destruct (cur s) as [i|] eqn:Cu; [apply after_startline_last|].
+  rewrite (startline_same s Hlf Cu).
+  destruct (parse_startline E C (buf s)) as [a x'|[[line le] info] rest|e]; [discriminate | apply after_startline_last | discriminate].
+Qed.
+
+(* ---- the reference machine's view: at most one message is still to come ---- *)
+Definition Good1 (sl : pstate) (rem : bytes) : Prop :=
+  wf_st sl /\ crlf_st sl /\
+  exists ms, parse L C k sl rem = (init, ms, None) /\ Forall (fun m => no_lf (m_line m) = true) ms /\ (List.length ms <= 1)%nat.
+
+Lemma good1_good sl rem : Good1 sl rem -> Good C k sl rem.
+Proof. intros (Hw & Hc & ms & P & Hms & _). split; [exact Hw|]. split; [exact Hc|]. exists ms. split; assumption. Qed.
+
+Lemma tmsg_idle s s' m : turn_of L C k s = TMsg s' m -> cur s' = None.
+Proof.
+  rewrite (turn_of_eq L C k s).
+  assert (AH : forall i b, after_headers L C k i b = TMsg s' m -> cur s' = None).
+  { intros i b. rewrite (after_headers_eq L C k i b). destruct (parse_body C i b) as [i' b'|i' b'|e]; try discriminate.
+    destruct (on_body_complete L C k i' b'); [|discriminate]. intros H. injection H as <- _. reflexivity. }
+  assert (AS : forall i b, after_startline L C k i b = TMsg s' m -> cur s' = None).
+  { intros i b. rewrite (after_startline_eq L C k i b). destruct (i_phase i); [|apply AH].
+    destruct (parse_headers L (i_le i) (i_hdrs i) b) as [h b'|h b'|e]; try discriminate.
+    destruct (on_headers_complete C k (set_phase (set_hdrs i h) PBody)); [apply AH | discriminate]. }
+  destruct (cur s) as [i|]; [apply AS|].
+  destruct (parse_startline L C (buf s)) as [a x'|[[line le] info] rest|e]; [discriminate | apply AS | discriminate].
+Qed.
+
+Lemma nothing_left s rem : cur s = None -> parse L C k s rem = (init, [], None) -> buf s ++ rem = [].
+Proof.
+  intros Cu P. rewrite (parse_eq L C k s rem), loop_S in P.
+  assert (Cu0 : cur (app_buf s rem) = None) by exact Cu.
+  destruct (buf (app_buf s rem)) as [|c X] eqn:B0; [exact B0|]. exfalso.
+  destruct (turn_of L C k (app_buf s rem)) as [s1|s1 m|e] eqn:T.
+  - injection P as -> . eapply (blocked_not_init C k (app_buf s rem) init Cu0); [rewrite B0; discriminate | exact T | reflexivity].
+  - rewrite (loop_acc L C k) in P. destruct (loop L C k _ s1 []) as [[s2 ms2] e2]. cbn [rev app] in P. discriminate.
+  - discriminate.
+Qed.
+
+Lemma good1_turn s rem : Good1 s rem -> buf s <> [] ->
+  match turn_of L C k s with
+  | TErr _ => False
+  | TMsg s' m => buf s' = []
+  | TBlocked s1 => buf s1 <> [] -> exists ms, parse L C k s1 rem = (init, ms, None)
+  end.
+Proof.
+  intros (Hw & Hc & ms & P & Hms & Hlen) Hb.
+  pose proof (turn_stable reference C k eq_refl eq_refl eq_refl s rem Hc) as TS.
+  pose proof (turn_ok L C k s Hw) as TO.
+  pose proof (turn_ok L C k (app_buf s rem) Hw) as TO2.
+  rewrite (parse_eq L C k s rem), loop_S in P.
+  assert (Hb2 : buf (app_buf s rem) <> []).
+  { unfold app_buf. cbn [buf]. intros E0. apply app_eq_nil in E0 as [E0 _]. contradiction. }
+  destruct (buf (app_buf s rem)) as [|c X] eqn:B0; [contradiction|].
+  destruct (turn_of L C k s) as [s1|s' m|e] eqn:T.
+  - destruct TS as [TS Hc1]. intros Hb1. rewrite TS in P, TO2.
+    rewrite (parse_eq L C k s1 rem), loop_S.
+    assert (Hb3 : buf (app_buf s1 rem) <> []).
+    { unfold app_buf. cbn [buf]. intros E0. apply app_eq_nil in E0 as [E0 _]. contradiction. }
+    pose proof (turn_ok L C k (app_buf s1 rem) TO) as TO3.
+    destruct (buf (app_buf s1 rem)) as [|c1 X1] eqn:B1; [contradiction|].
+    destruct (turn_of L C k (app_buf s1 rem)) as [s2|s2 m2|e2].
+    + exists ms. exact P.
+    + exists ms. rewrite <- P. destruct TO2 as [L2 W2]. destruct TO3 as [L3 _].
+      apply (loop_fuel L C k); [exact W2 | |]; unfold app_buf in *; cbn [buf] in *; rewrite ?B0, ?B1 in *; cbn [Datatypes.length] in *; lia.
+    + discriminate.
+  - destruct TS as [TS Hc']. rewrite TS in P. rewrite (loop_acc L C k) in P.
+    destruct (loop L C k (Datatypes.length (buf s ++ rem)) (app_buf s' rem) []) as [[s2 ms2] e2] eqn:LP.
+    cbn [rev app] in P. injection P as -> <- ->. cbn [Datatypes.length] in Hlen.
+    assert (ms2 = []) by (destruct ms2; [reflexivity | cbn in Hlen; lia]). subst ms2.
+    destruct TO as [Hlen' Hw'].
+    assert (P' : parse L C k s' rem = (init, [], None)).
+    { rewrite (parse_eq L C k s' rem), <- LP. apply (loop_fuel L C k); [exact Hw' | |]; unfold app_buf; cbn [buf]; rewrite !app_length in *; lia. }
+    pose proof (nothing_left s' rem (tmsg_idle s s' m T) P') as N. apply app_eq_nil in N. exact (proj1 N).
+  - rewrite TS in P. discriminate.
+Qed.
+
+Lemma doomed_nonempty sl : doomed sl -> buf sl <> [].
+Proof. intros (il & HS' & x' & _ & _ & _ & _ & Eb & _). rewrite Eb. destruct HS'; discriminate. Qed.
+
+Lemma quiet_loop_single F : forall se sl rem, Rst se sl -> wf_st se -> Good1 sl rem -> quiet_loop C k F se = true.
+Proof.
+  destruct F as [|f]; intros se sl rem HR We HG; cbn [quiet_loop]; [destruct (buf se); reflexivity|].
+  destruct (buf se) as [|c x] eqn:Be; [reflexivity|].
+  assert (Hbl : buf sl <> []).
+  { intros E0. apply (Rst_empty se sl HR) in E0. rewrite Be in E0. discriminate. }
+  pose proof (good_lf_safe C k se sl rem HR (good1_good sl rem HG)) as Hlf.
+  pose proof (good1_turn sl rem HG Hbl) as GT.
+  pose proof (turn_sim C k se sl HR) as TS.
+  unfold quiet_turn. rewrite Hlf. cbn [negb andb].
+  destruct (turn_of L C k sl) as [sl'|sl' m|e].
+  - destruct TS as [(se' & Te & _) | (Te & HD)].
+    + rewrite (turn_blocked_same se se' Hlf Te). reflexivity.
+    + exfalso. destruct (GT (doomed_nonempty sl' HD)) as [ms P].
+      destruct (doomed_parse C k sl' rem HD) as [(sl2 & P2 & HD2) | P2]; rewrite P in P2; [|discriminate].
+      injection P2 as <- _. destruct HD2 as (il & _ & _ & Cu & _). discriminate.
+  - destruct TS as (se' & Te & HR').
+    assert (Hbe : buf se' = []) by (apply (Rst_empty se' sl' HR'); exact GT).
+    rewrite (turn_last_same se se' m Hlf Te Hbe). cbn [is_peek negb andb].
+    destruct f; cbn [quiet_loop]; rewrite Hbe; reflexivity.
+  - contradiction.
+Qed.
+
+Lemma good1_app sl f rem : Good1 sl (f ++ rem) -> Good1 (app_buf sl f) rem.
+Proof.
+  intros (Hw & Hc & ms & P & Hms & Hl). split; [exact Hw|]. split; [exact Hc|]. exists ms. split; [|split; assumption].
+  rewrite <- P, !(parse_eq L C k). unfold app_buf. cbn [buf cur]. rewrite <- !app_assoc. reflexivity.
+Qed.
+
+Lemma quiet_parse_single se sl f rem : Rst se sl -> wf_st se -> Good1 sl (f ++ rem) -> quiet_parse C k se f = true.
+Proof.
+  intros HR We HG. unfold quiet_parse.
+  change {| buf := buf se ++ f; cur := cur se |} with (app_buf se f).
+  apply (quiet_loop_single _ (app_buf se f) (app_buf sl f) rem); [apply Rst_app, HR | exact We | apply good1_app, HG].
+Qed.
+
+Theorem quiet_run_single frags : forall se sl, Rst se sl -> wf_st se -> Good1 sl (concat_bytes frags) ->
+  quiet_run C k se frags = true.
+Proof.
+  induction frags as [|f fr IH]; intros se sl HR We HG; cbn [quiet_run concat_bytes] in *; [reflexivity|].
+  pose proof (quiet_parse_single se sl f (concat_bytes fr) HR We HG) as QP. rewrite QP. cbn [andb].
+  rewrite (parse_real C k se f QP).
+  destruct HG as (Hw & Hc & ms & P & Hms & Hl).
+  rewrite (parse_app reference C k eq_refl eq_refl eq_refl sl f (concat_bytes fr) Hw Hc) in P.
+  pose proof (parse_sim C k se sl f HR We Hw) as PS.
+  destruct (parse L C k sl f) as [[sl1 m1] [e|]] eqn:PL; [discriminate|].
+  destruct (parse L C k sl1 (concat_bytes fr)) as [[s2 m2] e2] eqn:P2. injection P as -> <- ->.
+  destruct (parse_result reference C k eq_refl eq_refl eq_refl sl f sl1 m1 Hw Hc PL) as (_ & Hw1 & Hc1).
+  destruct PS as [(se' & Pe & HR' & We' & _) | (Pe & _)]; rewrite Pe; [|reflexivity].
+  apply (IH se' sl1 HR' We'). split; [exact Hw1|]. split; [exact Hc1|]. exists m2. split; [exact P2|].
+  apply Forall_app in Hms. split; [exact (proj2 Hms)|]. rewrite app_length in Hl. lia.
+Qed.
+
+End Single.
+
 (* ---------- the fragmentation theorems for the client machine AS IMPLEMENTED, without the quiet-run hypothesis ---------- *)
 Theorem client_quiet (C : callees) wire ms frags :
   parse reference C Client init wire = (init, ms, None) -> Forall (fun m => no_lf (m_line m) = true) ms ->
@@ -429,5 +624,16 @@ Theorem server_any_fragmentation (C : callees) wire ms frags :
 Proof.
   intros Hfr P Hms Ec. destruct (whole_call_any_fragmentation C Server wire ms frags P Ec) as [_ R].
   apply R. exact (server_quiet C wire ms frags Hfr P Hms Ec).
+Qed.
+
+(* ---------- ... and for EITHER machine when the stream is ONE message with nothing behind it (the 411 peek needs octets behind a
+   completed message): e.g. a composed request without body, which carries no Content-Length ---------- *)
+Theorem single_message_any_fragmentation (C : callees) (k : kind) wire m frags :
+  parse reference C k init wire = (init, [m], None) -> no_lf (m_line m) = true ->
+  concat_bytes frags = wire -> run_keep real C k init frags = (init, [m], None).
+Proof.
+  intros P Hm Ec. destruct (whole_call_any_fragmentation C k wire [m] frags P Ec) as [_ R]. apply R.
+  apply (quiet_run_single C k frags init init); [reflexivity | exact I |].
+  split; [exact I|]. split; [exact I|]. exists [m]. rewrite Ec. split; [exact P|]. split; [constructor; [exact Hm | constructor] | cbn; lia].
 Qed.
 
